@@ -72,12 +72,14 @@ def run(chk: Check, repo: Repo) -> None:
     # ... with an eager task factory (Home Assistant's loop) `create_task` runs the target's first step before it returns:
     # that step may remove this task (flag cleared) or start it again (slot filled by the inner start).  The instance just
     # created is then not the current one - it is cancelled and the slot is left as the first step put it.
-    for eager in ("no", "removed", "restarted"):
+    for eager in ("no", "removed", "restarted", "disconnected", "disconnected-but-not-restarting"):
         inner = Obj("asyncio.Task", "inner")
         def eager_calls(c: ast.Call, env, eager=eager):
             if call_name(c).endswith("connection_manager.connected.is_set"):
-                return [Outcome(None, True)]
+                # connected when _start() looked first; after the eager first step the connection may be gone
+                return [Outcome(None, not (eager.startswith("disconnected") and env.get("#created")))]
             if call_name(c) == "asyncio.create_task":
+                env["#created"] = True
                 if eager == "removed":
                     env["self.xknx"] = None
                 elif eager == "restarted":
@@ -88,10 +90,12 @@ def run(chk: Check, repo: Repo) -> None:
                 if isinstance(tgt, Obj) and tgt.cls == "asyncio.Task":
                     return [Outcome(f"CANCEL({tgt.tag})", None)]
             return self_calls(c, env)
-        cfg, paths = _run(repo, f, eager_calls, {"self.xknx": Obj("XKNX", "x"), "self._task": None, "self.restart_after_reconnect": False})
+        cfg, paths = _run(repo, f, eager_calls, {"self.xknx": Obj("XKNX", "x"), "self._task": None, "self.restart_after_reconnect": eager == "disconnected"})
         got = {(tuple(t for t in p.env.get("trace", ()) if not t.startswith("raise:")), repr(p.env.get("self._task")), p.end_kind) for p in paths}
         new = Obj("asyncio.Task", "new")
-        want = {"no": {(("CREATE_TASK",), repr(new), "exit")}, "removed": {(("CREATE_TASK", "CANCEL(new)"), "None", "exit")}, "restarted": {(("CREATE_TASK", "CANCEL(new)"), repr(inner), "exit")}}[eager]
+        want = {"no": {(("CREATE_TASK",), repr(new), "exit")}, "removed": {(("CREATE_TASK", "CANCEL(new)"), "None", "exit")}, "restarted": {(("CREATE_TASK", "CANCEL(new)"), repr(inner), "exit")},
+                # a task that restarts after reconnection must not be left running while disconnected; one that does not, stays
+                "disconnected": {(("CREATE_TASK", "CANCEL(new)"), "None", "exit")}, "disconnected-but-not-restarting": {(("CREATE_TASK",), repr(new), "exit")}}[eager]
         chk.ob("task-start-eager", f.site(), got == want, f"Task._start, first step executed inside create_task: {eager}: (events, slot, end) = {sorted(got)}; reference {sorted(want)}", key=f"start-eager|{eager}")
     # Task.restart = cancel then start
     f = T("restart"); chk.unit(f)
